@@ -274,7 +274,7 @@ fn recursion_case(k: Kind, depth: u8, filter: bool) -> Result<(), (String, Strin
 
 fn namings() -> Vec<(String, Naming)> {
     let mut v: Vec<(String, Naming)> = NG.iter().map(|n| (n.short().to_string(), n.naming())).collect();
-    for (name, fmt) in [("c4", "%H%M"), ("c10", "%Y-%m-%d"), ("c20", "r%Y-%m-%d_%H-%M-%S"), ("c30", "%Y-%m-%d_%H-%M-%S_%Y-%m-%d"), ("r4", "r%j"), ("dot", "%Y.%m.%d_%H.%M.%S"), ("cjk", "%Y年%m月%d日%H時%M分%S秒"), ("mid", "%Y-%m-%d_%H-%M-%S·%3f"), ("c16é", "r%Y-%m-%d_%H-%Mé")] {
+    for (name, fmt) in [("c4", "%H%M"), ("c10", "%Y-%m-%d"), ("c20", "r%Y-%m-%d_%H-%M-%S"), ("c30", "%Y-%m-%d_%H-%M-%S_%Y-%m-%d"), ("r4", "r%j"), ("dot", "%Y.%m.%d_%H.%M.%S"), ("cjk", "%Y年%m月%d日%H時%M分%S秒"), ("mid", "%Y-%m-%d_%H-%M-%S·%3f"), ("c16é", "r%Y-%m-%d_%H-%Mé"), ("badspec", "r%Y-%Q_%H"), ("trailing%", "r%Y-%m-%d_%"), ("literal", "current")] {
         v.push((format!("{name}+cur"), Naming::TimestampsCustomFormat { current_infix: Some("cur"), format: fmt }));
         v.push((format!("{name}+direct"), Naming::TimestampsCustomFormat { current_infix: None, format: fmt }));
         v.push((format!("{name}+emptycur"), Naming::TimestampsCustomFormat { current_infix: Some(""), format: fmt }));
@@ -296,7 +296,15 @@ fn fileconfig_case(basename: &str, discr: Option<&str>, suffix: Option<&str>, st
             .error_channel(ErrorChannel::File(env.err.clone()))
             .build()
     };
-    let (logger, handle) = mk(append).map_err(|e| ("build".to_string(), e.to_string()))?;
+    let (logger, handle) = match mk(append) {
+        Ok(x) => x,
+        // a format that is not a strftime format: an error from build() is the right answer
+        Err(_) if matches!(naming, Naming::TimestampsCustomFormat { format, .. } if format.ends_with('%') || format.contains("%Q")) => {
+            env.leave();
+            return Ok(());
+        }
+        Err(e) => return Err(("build".to_string(), e.to_string())),
+    };
     lg::log_info(&*logger, "first record of run one");
     handle.trigger_rotation().ok();
     lg::log_info(&*logger, "second record of run one");
@@ -368,6 +376,52 @@ fn prepop_case(name: &str, naming: NamingK, clean: CleanK, append: bool, as_dir:
 }
 
 // ---------------------------------------------------------------- (vii) write-mode extremes
+
+/// Rotation parameters at their extremes: W R W W restart W shutdown must come back (a
+/// configuration problem reported as Err by build() is fine).
+fn rotation_extremes_case(i: usize) -> Result<(), (String, String)> {
+    let cleanups = [
+        Cleanup::KeepLogFiles(usize::MAX),
+        Cleanup::KeepCompressedFiles(usize::MAX),
+        Cleanup::KeepLogAndCompressedFiles(usize::MAX, usize::MAX),
+        Cleanup::KeepLogAndCompressedFiles(usize::MAX, 1),
+        Cleanup::KeepLogAndCompressedFiles(1, usize::MAX),
+        Cleanup::KeepLogAndCompressedFiles(0, 0),
+    ];
+    let criteria = [Criterion::Size(0), Criterion::Size(u64::MAX), Criterion::AgeOrSize(flexi_logger::Age::Day, u64::MAX), Criterion::AgeOrSize(flexi_logger::Age::Second, 0)];
+    let cleanup = cleanups[i % cleanups.len()];
+    let criterion = criteria[(i / cleanups.len()) % criteria.len()];
+    let naming = [Naming::Numbers, Naming::TimestampsDirect][(i / (cleanups.len() * criteria.len())) % 2];
+    let env = Env::new("c10e");
+    env.enter();
+    let mk = || {
+        Logger::with(LogSpecification::trace())
+            .log_to_file(FileSpec::default().directory(&env.dir).basename("app").suppress_timestamp())
+            .format(lg::payload_format)
+            .rotate(criterion, naming, cleanup)
+            .cleanup_in_background_thread(false)
+            .append()
+            .error_channel(ErrorChannel::File(env.err.clone()))
+            .build()
+    };
+    for run in 0..2 {
+        match mk() {
+            Err(_) => break,
+            Ok((logger, handle)) => {
+                lg::log_info(&*logger, &format!("run {run} record one"));
+                handle.trigger_rotation().ok();
+                lg::log_info(&*logger, &format!("run {run} record two"));
+                lg::log_info(&*logger, &format!("run {run} record three"));
+                handle.shutdown();
+                drop(logger);
+                drop(handle);
+            }
+        }
+    }
+    env.leave();
+    Ok(())
+}
+const N_ROTATION_EXTREMES: usize = 6 * 4 * 2;
 
 fn writemode_case(i: usize) -> Result<(), (String, String)> {
     let modes = [
@@ -743,6 +797,10 @@ fn run_unit(tier: &str, unit: usize, out: &mut Out) {
         });
         record(out, r, json!({"kind": "spec", "len": s.len()}), Some(format!("s{}", s.len())));
     }
+    for i in 0..N_ROTATION_EXTREMES {
+        let r = guard("rotation-extremes", &format!("rotation parameters case {i}"), move || rotation_extremes_case(i));
+        record(out, r, json!({"kind": "rotation-extremes", "i": i}), Some(format!("x{i}")));
+    }
     for i in 0..14 {
         let r = guard("write-mode", &format!("write mode case {i}"), move || writemode_case(i));
         record(out, r, json!({"kind": "writemode", "i": i}), Some(format!("w{i}")));
@@ -791,6 +849,10 @@ fn replay(case: &Value) -> Vec<Violation> {
             let (ap, ad) = (case["append"].as_bool().unwrap_or(false), case["as_dir"].as_bool().unwrap_or(false));
             println!("replay C10: pre-existing {name:?} naming {naming:?} cleanup {clean:?} append {ap} dir {ad}");
             guard("prepopulated", "prepop", move || prepop_case(&name, naming, clean, ap, ad))
+        }
+        Some("rotation-extremes") => {
+            let i = case["i"].as_u64().unwrap_or(0) as usize;
+            guard("rotation-extremes", "rotation parameters", move || rotation_extremes_case(i))
         }
         Some("writemode") => {
             let i = case["i"].as_u64().unwrap_or(0) as usize;
